@@ -241,6 +241,7 @@ MO = 'sedfitter/models.py'
 SO = 'sedfitter/source/source.py'
 
 MUST_FIRE = [
+    ('round 12 twin: np.select for the limits with default=0: the errors of the fluxes filled in before are wiped', [('sedfitter/source/source.py', "        r = (self.valid == 2) | (self.valid == 3)\n        log_flux[r] = np.log10(self.flux[r])\n        log_error[r] = self.error[r]\n", "        r = (self.valid == 2) | (self.valid == 3)\n        log_flux = np.select([r], [np.log10(self.flux)], default=log_flux)\n        log_error = np.select([r], [self.error], default=0.)\n")]),
     ('plot-only points converted with the fitted ones, their weight made zero by a truth value over the error: 0/0 is NaN for an error of zero', [(SO, "        r = self.valid == 1\n        log_flux[r] = np.log10(self.flux[r]) - 0.5 * (self.error[r] / self.flux[r]) ** 2. / np.log(10.)\n        log_error[r] = np.abs(self.error[r] / self.flux[r]) / np.log(10.)\n        weight[r] = 1. / log_error[r] ** 2.\n", "        r = (self.valid == 1) | (self.valid == 9)\n        log_flux[r] = np.log10(self.flux[r]) - 0.5 * (self.error[r] / self.flux[r]) ** 2. / np.log(10.)\n        log_error[r] = np.abs(self.error[r] / self.flux[r]) / np.log(10.)\n        weight[r] = (self.valid[r] == 1) / log_error[r] ** 2.\n")]),
     ('unused columns left out from the start, the error column not: limits read another filter\'s confidence', [(FR, "    # Calculate the 'default' chi^2 and handle special cases after\n", "    used = valid != 0\n    if not np.all(used):\n        valid, weight = valid[used], weight[used]\n        data, model = data[..., used], model[..., used]\n\n    # Calculate the 'default' chi^2 and handle special cases after\n")]),
     ('lower-limit penalty added as truth value x penalty (0 * inf is NaN at confidence 1)', [(FR, "        for j in np.where(valid == 2)[0]:\n            reset = model[:, j] < data[:, j]\n            chi2_array[:, j][reset] = -2. * np.log(1. - error[j])\n", "        for j in np.where(valid == 2)[0]:\n            reset = model[:, j] < data[:, j]\n            chi2_array[:, j] += reset * (-2. * np.log(1. - error[j]))\n")]),
@@ -266,6 +267,7 @@ MUST_FIRE = [
     ('upper limits treated like lower in chi2 mask', [(FR, "        for j in np.where(valid == 3)[0]:\n            reset = model[:, j] > data[:, j]", "        for j in np.where(valid >= 3)[0]:\n            reset = model[:, j] > data[:, j]")]),
 ]
 MUST_SILENT = [
+    ('round 12: the limits filled in with np.select, everything else kept through default=', [('sedfitter/source/source.py', "        r = (self.valid == 2) | (self.valid == 3)\n        log_flux[r] = np.log10(self.flux[r])\n        log_error[r] = self.error[r]\n", "        r = (self.valid == 2) | (self.valid == 3)\n        log_flux = np.select([r], [np.log10(self.flux)], default=log_flux)\n        log_error = np.select([r], [self.error], default=log_error)\n")]),
     ('unused columns left out from the start, in every per-filter array', [(FR, "    # Calculate the 'default' chi^2 and handle special cases after\n", "    used = valid != 0\n    if not np.all(used):\n        valid, weight = valid[used], weight[used]\n        data, model = data[..., used], model[..., used]\n        error = error[used]\n\n    # Calculate the 'default' chi^2 and handle special cases after\n")]),
     ('lower-limit penalty selected with np.where', [(FR, "        for j in np.where(valid == 2)[0]:\n            reset = model[:, j] < data[:, j]\n            chi2_array[:, j][reset] = -2. * np.log(1. - error[j])\n", "        for j in np.where(valid == 2)[0]:\n            reset = model[:, j] < data[:, j]\n            chi2_array[:, j] = np.where(reset, -2. * np.log(1. - error[j]), chi2_array[:, j])\n")]),
     ('buffers created with zeros_like and an explicit float dtype', [(SO, "log_flux = np.zeros(self.flux.shape, dtype=np.float64)", "log_flux = np.zeros_like(self.flux, dtype=float)")]),
